@@ -174,7 +174,7 @@ pub fn decide_next_token(
 	check_for_identifier(src).unwrap_or_else(||
 	check_for_special   (src).unwrap_or_else(||
 	check_for_string    (src).unwrap_or_else(||
-	(TokenKind::Error, 1)))))))
+	(TokenKind::Error, src.chars().next().map_or(1, |c| c.len_utf8()))))))))
 }
 
 
